@@ -50,7 +50,6 @@ VARIABLES
   nops     \* operations so far (only when MaxOps > 0)
 
 vars == <<slots, owned, heap, elive, dcl, ddr, err, nops>>
-
 MAXC == -1                                   \* stands for usize::MAX in the capacity word
 
 \* ---- pointers, values, heap objects (uniform record shapes) ----
@@ -314,6 +313,32 @@ Next ==
   \/ \E i, j \in 1..NSlots : Peek2(i, j)
 
 Spec == Init /\ [][Next]_vars
+
+(***************************************************************************)
+(* VIEW of the exhaustive runs.  dcl / ddr are outputs of the last action  *)
+(* (read by no guard and no property) and are hidden.  Heap object ids are *)
+(* names without meaning (no action or property depends on which id an     *)
+(* object has): a pointer is replaced by the object it points to plus the  *)
+(* lowest slot that points to the same object (which cows share one Arc),  *)
+(* objects that no slot points to (Arcs only the caller still holds) are   *)
+(* kept as a bag.  Two states with the same view differ only by a renaming *)
+(* of heap ids.                                                            *)
+(***************************************************************************)
+RefsTo(a) == {i \in 1..NSlots : slots[i].full /\ slots[i].ptr = HeapPtr(a)}
+MinOf(S) == CHOOSE x \in S : \A y \in S : x <= y
+CanonCow(c) ==
+  IF c.full /\ c.ptr.k = "heap"
+  THEN [full |-> TRUE, ptr |-> <<"heap", MinOf(RefsTo(c.ptr.a)), heap[c.ptr.a]>>, len |-> c.len, cap |-> c.cap, src |-> c.src, thr |-> c.thr]
+  ELSE [full |-> c.full, ptr |-> <<c.ptr.k, 0, c.ptr.v>>, len |-> c.len, cap |-> c.cap, src |-> c.src, thr |-> c.thr]
+CanonOwned(o) ==
+  IF o.full /\ o.ptr.k = "heap"
+  THEN [full |-> TRUE, ptr |-> <<"heap", 0, heap[o.ptr.a]>>, len |-> o.len, cap |-> o.cap, src |-> o.src]
+  ELSE [full |-> o.full, ptr |-> <<o.ptr.k, 0, o.ptr.v>>, len |-> o.len, cap |-> o.cap, src |-> o.src]
+Unref == {a \in Objs : heap[a].kind # "free" /\ RefsTo(a) = {}
+                        /\ \A j \in 1..NOwned : ~(owned[j].full /\ owned[j].ptr = HeapPtr(a))}
+UnrefBag == [o \in {heap[a] : a \in Unref} |-> Cardinality({a \in Unref : heap[a] = o})]
+View == <<[i \in 1..NSlots |-> CanonCow(slots[i])], [j \in 1..NOwned |-> CanonOwned(owned[j])],
+          UnrefBag, elive, err, nops>>
 
 (***************************************************************************)
 (* Properties                                                              *)
